@@ -1,5 +1,5 @@
 CONSTANT KTab <- MC_KTab
-CONSTANT Kernels <- KMany
+CONSTANT Kernels <- KMid
 CONSTANT NWs = {1, 2, 3, 5, 0}
 CONSTANT Timeouts = {TRUE, FALSE}
 CONSTANT TickEnabled = FALSE
